@@ -789,6 +789,26 @@ def _refine_ring(rnd, ring, allow_closed_arc=True, arc_pieces=None):
         (cx, cy), r, t0, t1 = e[1], e[2], e[3], e[4]
         span = t1 - t0
         full = abs(span - TWO_PI) < 1e-12
+        if arc_pieces is not None and arc_pieces[0] == "major":
+            # opt-in ("major",): a full circle as one piece of 0.6 .. 0.8 of a turn and its complement, any
+            # other arc in one piece; the control point of every piece next to one of its ends.  Which way
+            # round a piece goes may not be read off where its control point sits (seeded change C14-r2-2)
+            if full:
+                a = rnd.uniform(0.6, 0.8) * TWO_PI
+                cuts = [t0, t0 + (a if rnd.random() < 0.5 else TWO_PI - a), t1]
+            else:
+                cuts = [t0, t1]
+            pts = [_arc_point_exact(cx, cy, r, t) for t in cuts]
+            pts[-1] = pts[0] if full else pts[-1]
+            if not full and len(e) > 5:
+                pts[0], pts[-1] = e[5], e[6]
+            for i in range(len(cuts) - 1):
+                frac = rnd.uniform(0.03, 0.1)
+                if rnd.random() < 0.5:
+                    frac = 1.0 - frac
+                tm = cuts[i] + (cuts[i + 1] - cuts[i]) * frac
+                out.append(("A", pts[i], _arc_point_exact(cx, cy, r, tm), pts[i + 1]))
+            continue
         if arc_pieces is not None:
             k = max(1, int(round(rnd.randint(arc_pieces[0], arc_pieces[1]) * span / TWO_PI)))
             # (lo, hi, "mid"): pieces of nearly equal size with the control point near their middle,
